@@ -91,6 +91,10 @@ func fieldReadsOn(p *Prog, root *ssa.Function, T *types.Named) map[string]bool {
 
 // C08 — genesis export then import reproduces the custom-module state.
 func checkC08(p *Prog, r *Report) {
+	checkNoDroppedErrors(p, r, "C08", "x/*", func(fn *ssa.Function) bool { return InPkgs(fn, "x") })
+	checkNoNilWrap(p, r, "C08", "x/<module> (genesis code), x/<module>/types", func(fn *ssa.Function) bool {
+		return inExactPkgs(fn, "x/aol", "x/did", "x/pnft", "x/burn", "x/aol/types", "x/did/types", "x/pnft/types", "x/burn/types")
+	})
 	r.Explain = "Decided statically: D1 for each custom module the store families written by message handlers are all read by ExportGenesis and all written by InitGenesis; D2 every field of every exported record type is consumed by the importer: AOL and DID entries are stored whole and untransformed, and on the PNFT import call tree every field of Denom and of Pnft is read (in particular the current Owner); D3 the import path contains no actor-vs-owner authorization guard (at import there is no actor; such a guard compares two independently mutable data and makes the import of a legitimately reached state panic); D4 per AOL family the exporter builds the map key with EncodeToString(&key, sep) from the key decoded from the very store entry whose value it exports, into the map field whose importer decodes with the same key type and writes through the same family's setter; the DID export key is the store key itself; D5 no exporter ranges over a Go map (export order = store iteration order, maps are marshalled with sorted keys) and import loops over maps only perform keyed writes derived from the iteration key (order-insensitive). D6 every in-loop decode target of the export/list paths is fresh per iteration; D7 each custom store key is handed to its own keeper constructor only (one exporting/importing module per store); D8 AOL genesis validation looks nothing up in a family whose entries a message handler deletes (referential integrity towards a deletable family is not an invariant of reachable states)."
 	r.NotDec = []string{"equality of query answers before/after (runtime)", "JSON/amino/proto codec round trips", "module-manager ordering inside the SDK", "non-custom modules", "genesis Validate ⊇ reachable states beyond the field languages decided in C16"}
 	r.Trusted = []string{"cosmos-sdk module manager InitGenesis/ExportGenesis dispatch", "gogoproto JSON marshalling (sorted map keys)"}
@@ -374,6 +378,8 @@ func checkC08(p *Prog, r *Report) {
 		aolRules(p, r, "C08", func(tag string) bool { return tag == "genesis" || tag == "family" })
 	}
 
+	// every module's ValidateGenesis returns the verdict of its genesis validator
+	checkValidateGenesisPropagates(p, r, kp, []string{"x/aol", "x/did", "x/pnft", "x/burn"})
 	// one keeper (hence one exporting/importing module) per custom store
 	{
 		w := BuildWire(p)
@@ -525,6 +531,10 @@ func checkC08(p *Prog, r *Report) {
 			}
 			r.Count("fields-of-"+tn, n)
 		}
+		// a partial update of a stored denom never empties a field the genesis validation requires
+		checkPartialUpdates(p, r, kp, "x/*/keeper", func(fn *ssa.Function) bool {
+			return InPkgs(fn, "x/aol/keeper", "x/did/keeper", "x/pnft/keeper", "x/burn/keeper")
+		})
 		// exporter loop: tokens of every denom are exported, none skipped
 		checkUnconditionalLoopEffect(p, r, kp("LOOP", "x/pnft.ExportGenesis#tokens-of-every-denom-exported"), pexp, func(in ssa.Instruction) bool {
 			c, ok := in.(*ssa.Call)
